@@ -95,9 +95,33 @@ def jump(server, c):
     return False
 
 
+def tlaps_lemma(ck):
+    """EioSidProof!CounterDistinct ((a + d) % M # a for 0 < d < M, every M) checked by tlapm: the
+    reason why M consecutive counters - hence ids - differ, independent of the scaled M TLC uses.
+    A proof that no longer goes through is a machinery error, not a verdict on the code."""
+    import shutil
+    import subprocess
+    exe = shutil.which('tlapm')
+    if exe is None:
+        ck.assume('tlapm not found: the TLAPS lemma EioSidProof!CounterDistinct was not re-checked')
+        return
+    wd = tlc.workdir('tlaps-')
+    p = subprocess.run([exe, '--toolbox', '0', '0', 'EioSidProof.tla'], cwd=wd,
+                       stdout=subprocess.PIPE, stderr=subprocess.STDOUT, timeout=600)
+    out = p.stdout.decode('utf-8', 'replace')
+    import re
+    m = re.search(r'All (\d+) obligations proved', out)
+    if not m:
+        raise MachineryError('TLAPS: EioSidProof not proved\n' + out[-2000:])
+    ck.cov['tlaps'] = {'module': 'EioSidProof', 'theorems': ['CounterDistinct', 'ModSmall', 'ModAdd', 'WindowDistinct'],
+                       'obligations_proved': int(m.group(1))}
+
+
 def run(tier):
     ck = Check('C17', tier)
     thorough = tier == 'thorough'
+    # ---- 0. TLAPS: the arithmetic core for every modulus -------------------------------
+    tlaps_lemma(ck)
     # ---- 1. TLC on the specification --------------------------------------------------
     for m in ([2, 4, 8, 16] if thorough else [2, 4, 8]):
         consts = {'M': m, 'Rnd': '{0, 1}'}
